@@ -356,7 +356,7 @@ def run_check(prop, tier: str, seed: int, replay: Optional[str] = None) -> int:
         if hasattr(prop, "translate"):
             prop.translate(ctx)
         # 2 proofs
-        built = ctx.lake_build(prop.LEAN_MODULES)
+        built = ctx.lake_build(list(prop.LEAN_MODULES) + list(getattr(prop, "SETUP_MODULES", [])))
         # 3 hygiene + audit
         ctx.hygiene(prop.LEAN_SOURCES)
         if built:
